@@ -68,8 +68,14 @@ def build_stream(name):
         w.write(r)
     w.flush()
     raw = buf.getvalue()
-    frames = refcodec.split_frames(raw)
-    _, dec = refcodec.decode_stream(raw)
+    try:
+        frames = refcodec.split_frames(raw)
+        _, dec = refcodec.decode_stream(raw)
+    except refcodec.FormatError as e:
+        # the fault-free stream itself is not a record stream: nothing can be cut; reported once per stream
+        s = {"broken": str(e)[:200], "specs": specs}
+        _STREAMS[name] = s
+        return s
     table = [(end, ev[0] in ("REC", "GROUPED")) for (_, end, _), ev in zip(frames, dec.events)]
     g = io.BytesIO()
     with gzip.GzipFile(fileobj=g, mode="wb", mtime=0) as f:
@@ -166,6 +172,9 @@ def judge(s, image, plain_len, case, label, must_be_clean, completeness=True, mi
 def run_case(case):
     h = jhash(case)
     s = build_stream(case["stream"])
+    if "broken" in s:
+        return {"ev": 1, "h": h, "nt": True, "out": "baseline-broken",
+                "viol": [("C04:baseline:%s:fault-free-stream-not-decodable" % case["stream"], {"kind": case["kind"], "stream": case["stream"]}, {"error": s["broken"]})]}
     if case["kind"] == "cut":
         c = case["c"]
         if case.get("gz"):
@@ -232,7 +241,7 @@ def run_wfault(case, s, h):
         clean = (not dev.failed) and err is None
         v, outs = judge(s, image, plain, c2, label, clean, completeness=True)
         viol += v
-    elif case["mode"] == "chunked":
+    elif case["mode"] in ("chunked", "none"):
         # every write was a legal (possibly short) write and was acknowledged: the image must be the complete stream
         if err is not None:
             viol.append(("C04:%s:raises-on-legal-short-writes:%s" % (label, type(err).__name__), case, {"error": repr(err)[:200]}))
@@ -293,6 +302,12 @@ def count_calls(name, writer):
 
 
 def cases(tier):
+    broken = [n for n in ("small", "nested", "long", "empty", "zero", "bigframe", "hugeframe") if "broken" in build_stream(n)]
+    if broken:
+        # the writer does not produce a record stream even without a fault: one case per such stream carries the report
+        for n in broken:
+            yield {"kind": "cut", "stream": n, "c": 0}
+        return
     names = ["small", "nested", "long", "empty", "zero"]
     # bigframe: every cut of the compressed image; of the raw image every cut within 48 bytes of a frame boundary and every
     # 251st position in between (the interior of one 70000-character payload)
@@ -335,7 +350,9 @@ def cases(tier):
                                 continue
                             yield {"kind": "wfault", "stream": name, "writer": writer, "i": i, "k": k, "mode": mode, "after": after}
             if writer != "gzip":
-                for k in (1, 2, 3, 5, 7, 64):
+                yield {"kind": "wfault", "stream": name, "writer": writer, "i": 0, "k": 0, "mode": "none", "after": "close", "dev": "duck"}
+                yield {"kind": "wfault", "stream": name, "writer": writer, "i": 0, "k": 0, "mode": "none", "after": "close"}
+                for k in (1, 2, 3, 5, 7, 64) + ((4096, 8192, 30000, 65535, 65536) if name in ("bigframe", "long") else ()):
                     yield {"kind": "wfault", "stream": name, "writer": writer, "i": 0, "k": k, "mode": "chunked", "after": "close"}
                     if writer == "low":
                         yield {"kind": "wfault", "stream": name, "writer": writer, "i": 0, "k": k, "mode": "chunked", "after": "close", "dev": "duck"}
@@ -352,5 +369,5 @@ def main(tier, seed, workers=None):
     for n in ("small", "nested", "long", "empty", "zero", "bigframe", "hugeframe"):
         build_stream(n)
     explore(run, cases(tier), run_case, workers)
-    run.extra["streams"] = {n: {"raw_len": len(s["raw"]), "gz_len": len(s["gz"]), "frames": len(s["frames"])} for n, s in _STREAMS.items()}
+    run.extra["streams"] = {n: {"raw_len": len(s["raw"]), "gz_len": len(s["gz"]), "frames": len(s["frames"])} for n, s in _STREAMS.items() if "broken" not in s}
     return run.finish(lambda case: [v[0] for v in run_case(case)["viol"]])
